@@ -330,6 +330,8 @@ def gen_build(rng, sc, lr_fail_bias=False):
             opts["call_actions_during_tree_build"] = True
     if rng.random() < 0.15:
         opts["consume_input"] = False
+    if rng.random() < 0.08:
+        opts["debug_colors"] = True  # sets the module-global termui.colors
     b = {"kind": kind, "opts": opts}
     b["recovery"] = rng.choice(["off", "off", "default", "default", "skip", "inject", "mixed"])
     if sc.get("dynamic"):
